@@ -33,6 +33,18 @@ PTY_AUX = ['isatty', 'getecho', 'setecho', 'getwinsize', 'setwinsize', 'sendcont
 FD_AUX = ['isatty', 'sendline', 'readline', 'fileno', 'flush']
 
 
+def _strip_tb(e):
+    """A stored exception keeps its traceback, the traceback keeps the frames, the frames keep the object under test alive:
+    the harness must not be the reason an object outlives its last reference."""
+    seen = 0
+    x = e
+    while x is not None and seen < 10:
+        x.__traceback__ = None
+        x = x.__context__ or x.__cause__
+        seen += 1
+    return e
+
+
 class ClosableLog(object):
     """A log file object the application may close before it closes the spawn object (`with open(...) as log:`)."""
 
@@ -424,18 +436,26 @@ def run(scn, prop=None):
                     r.child = None
                     child.expect_list = None
                     child.expect_exact = None
+                    if the_log is not None:
+                        for nm_ in ('logfile', 'logfile_read', 'logfile_send'):
+                            setattr(child, nm_, None)
                     child = None
+                    # dropping the last reference is what "del child" means to the caller: the object is expected to
+                    # clean up then, not whenever the cyclic collector happens to run next
+                    state['freed_on_del'] = (proc is None or proc.state == 'reaped' or not proc.alive()) and \
+                        not getattr(main_of, 'open', False) if tr == 'pty' else None
                     gc.collect()
                 else:
                     raise HarnessError('unknown op %r' % o)
             except (EOF, TIMEOUT) as e:
-                res = {'out': type(e).__name__, 'exc': e}
+                res = {'out': type(e).__name__, 'exc': _strip_tb(e)}
             except SimHang as e:
-                res = {'out': 'HANG', 'exc': e}
+                res = {'out': 'HANG', 'exc': _strip_tb(e)}
             except HarnessError:
                 raise
             except Exception as e:
                 res = {'out': 'EXC', 'exc': e, 'site': harness._tb_site(e)}
+                _strip_tb(e)
             plant_decoys()
             det = {'op': kx, 'opname': o, 'outcome': res['out'], 'ret': repr(res.get('ret'))[:40],
                    'exc': repr(res.get('exc'))[:160], 'ops': [x['op'] for x in scn['ops'][:kx + 1]]}
@@ -462,6 +482,12 @@ def run(scn, prop=None):
             if state['child'] is None and state.get('loop') is not None:
                 break      # the event loop's transport still refers to the object: it is not garbage yet
             if state['child'] is None:
+                if state.get('freed_on_del') is False and state.get('loop') is None:
+                    w.probe('del_needed_the_cyclic_collector')
+                    V('C10.leak_until_gc', 'the last reference to the object was dropped, but its child / descriptor stayed until the '
+                      'cyclic garbage collector was run by hand (the object keeps itself alive through a reference cycle)', **det)
+                elif state.get('freed_on_del') is True:
+                    w.probe('del_freed_at_once')
                 # object dropped: nothing may remain
                 if proc is not None and proc.state != 'reaped':
                     # __del__ on ptyprocess closes with force
